@@ -30,8 +30,10 @@ static void hmk(const char *d) { if (mkdir(d, 0700) == -1 && errno != EEXIST) { 
 
 static void hist_init(void) {
   if (hist_ready) return;
-  const char *t = getenv("TMPDIR"); if (!t || !*t) t = "/tmp";
-  snprintf(hq_dir, sizeof hq_dir, "%s/c15q-XXXXXX", t);
+  /* under the current directory (the check runs the harness inside its scratch build, which it removes) */
+  char cwd[200];
+  if (!getcwd(cwd, sizeof cwd)) { perror("getcwd"); exit(95); }
+  snprintf(hq_dir, sizeof hq_dir, "%s/c15q-XXXXXX", cwd);
   if (!mkdtemp(hq_dir)) { perror("mkdtemp"); exit(95); }
   if (chdir(hq_dir) == -1) { perror("chdir"); exit(95); }
   static const char *top[] = { "info", "local", "remote", "mess" };
@@ -43,6 +45,7 @@ static void hist_init(void) {
   concurrency[0] = concurrency[1] = 20;
   del_init(); pass_init();
   while (!constmap_init(&mapvdoms, "", 0, 1)) ;
+  while (!constmap_init(&maplocals, "", 0, 0)) ;   /* stripvdomprepend consults locals since 160bf54 */
   for (int c = 0; c < 2; c++) { if (pipe(hpipe[c]) == -1) { perror("pipe"); exit(95); } chanfdin[c] = hpipe[c][0]; }
   hist_ready = 1;
 }
@@ -72,7 +75,7 @@ static void hist_reset(void) {
 }
 
 static void hset_mtime(const char *p, long t) {
-  struct timeval ut[2] = { { t, 0 }, { t, 0 } };
+  struct timeval ut[2] = { { t + 12345, 0 }, { t, 0 } };   /* atime differs from mtime on purpose */
   if (utimes(p, ut) == -1) { perror("utimes"); exit(95); }
 }
 
